@@ -163,6 +163,9 @@ def call(E, path, fv, args, kwargs, frame):
                 return ListObj(r)
             if isinstance(r, (str, int, bool, tuple, type(None))):
                 return r
+        if name.startswith("str.") and name[4:] in STR_TO_STR and isinstance(fv.self_val, SStr) \
+                and all(isinstance(a, (str, int, type(None))) for a in args) and not kwargs:
+            return _str_opaque(E, path, fv, args, kwargs)
         raise Unsupported(f"builtin {name}")
     return h(E, path, fv, args, kwargs, frame)
 
@@ -508,9 +511,25 @@ def _sterm(s):
     return z3.StringVal(s) if isinstance(s, str) else s.term()
 
 
+STR_TO_STR = {"strip", "lstrip", "rstrip", "title", "capitalize", "casefold", "swapcase", "center", "ljust", "rjust",
+              "zfill", "expandtabs", "removeprefix", "removesuffix", "translate"}
+
+
+def _str_opaque(E, path, fv, args, kwargs):
+    """An unmodelled str -> str method on a symbolic string: some string (uninterpreted function of the
+    receiver and the constant arguments).  Sound over-approximation: nothing is known about the result."""
+    name = fv.name.split(".", 1)[1]
+    s = fv.self_val
+    key = name + "".join("|" + repr(a) for a in args if isinstance(a, (str, int, type(None))))
+    f = E.uf("str_" + key, z3.StringSort(), z3.StringSort())
+    return SStr([Atom(f(_sterm(s)), (name, s) + tuple(args))])
+
+
 def _str_replace(E, path, fv, args, kwargs, frame):
     s = fv.self_val
     if len(args) != 2:
+        if len(args) == 3 and all(isinstance(a, (str, int)) for a in args) and isinstance(s, SStr):
+            return _str_opaque(E, path, Builtin("str.replace_count", s), args, kwargs)
         raise Unsupported("str.replace with count")
     old, new = args
     if isinstance(s, str) and isinstance(old, str) and isinstance(new, str):
